@@ -44,6 +44,10 @@ def m_expect(ex, callee, args):
     v = args[0]; isopt = 'Option' in callee
     if ex.decide(ex.discr_of(v).e == (1 if isopt else 0)): return ex.field_of(v, 'Some' if isopt else 'Ok', 0, 'T')
     raise Panic('expect failed @ ' + ex.stack[-1][-60:])
+def opt_parts(ex, v):
+    """(present: z3 Bool, payload value or None) of an Option value that may be concrete or lazy"""
+    if isinstance(v, Agg): return (z3.BoolVal(v.variant == 1), v.fields[0] if v.variant == 1 else None)
+    return (ex.discr_of(v).e == 1, ex.field_of(v, 'Some', 0, 'T'))
 def m_opt_is(ex, callee, args):
     v = strip(ex, args[0]); d = ex.discr_of(v)
     want = {'is_some': 1, 'is_none': 0, 'is_ok': 0, 'is_err': 1}[callee.split('::')[-1]]
@@ -527,9 +531,11 @@ class PeekIt(It):
             self.buf.append(x)
         return self.buf[0]
 def to_iter(ex, v):
+    byref = isinstance(v, Ref)
     while isinstance(v, Ref): v = ex.deref_val(v)
     if isinstance(v, It): return v
-    if isinstance(v, VecVal): return ListIter([c.v for c in v.cells])       # into_iter by value
+    if isinstance(v, VecVal): return ListIter([Ref(c) for c in v.cells] if byref else [c.v for c in v.cells])       # (&Vec).into_iter() / Vec::into_iter()
+    if byref and isinstance(v, MapVal): return ListIter([tup(Ref(Cell(k)), Ref(c)) for k, c in map_entries(ex, v)])
     if isinstance(v, Slice): return ListIter([Ref(c) for c in v.cells])
     if isinstance(v, Agg) and v.ty == 'Range': return RangeIter(v.fields[0], v.fields[1])
     if isinstance(v, Agg) and v.ty == 'RangeInclusive': return RangeIter(v.fields[0], v.fields[1], True)
